@@ -121,11 +121,12 @@ func runJoinCase(t lib.TB, test string, ops []jop) (st jstats) {
 	mem, _ := dbm.NewGoMemDB("c10j", "", 0)
 	kvdb := dbm.NewKVDB(mem)
 	join := newJoin(kvdb)
-	status := map[string]int64{}                 // model of the right table
-	left := map[string]*protodata.GameAddr{}     // model of the left table
+	status := map[string]int64{}                  // model of the right table
+	left := map[string]*protodata.GameAddr{}      // model of the left table
 	persisted := map[string]*protodata.GameAddr{} // left rows as of the last save
 	pendDel, leftOps := map[string]bool{}, map[string]int{}
 	gameTouched, leftTouched := map[string]bool{}, map[string]bool{}
+	persistedStatus := map[string]int64{} // right rows as of the last save
 	step := 0
 	fail := func(format string, a ...interface{}) {
 		lib.Violation(t, prop, test, map[string]interface{}{"ops": ops[:step+1]}, "step %d (%+v): %s", step, ops[step], fmt.Sprintf(format, a...))
@@ -212,11 +213,28 @@ func runJoinCase(t lib.TB, test string, ops []jop) (st jstats) {
 		}
 		pendDel, leftOps = map[string]bool{}, map[string]int{}
 		gameTouched, leftTouched = map[string]bool{}, map[string]bool{}
+		persistedStatus = map[string]int64{}
+		for g, s := range status {
+			persistedStatus[g] = s
+		}
 	}
+	// the class of the listed finding knownJoinDel: within one batch a saved left row is deleted and the join-indexed field
+	// of the saved right row it points to is changed
+	rightChanged := func(g string) bool { old, ok := persistedStatus[g]; return ok && status[g] != old }
 	for step = 0; step < len(ops); step++ {
 		o := ops[step]
 		switch o.Op {
 		case "game":
+			if old, ok := persistedStatus[o.ID]; ok && old != o.Status && lib.Known(knownJoinDel) {
+				excluded := false
+				for tx := range pendDel {
+					excluded = excluded || gameOf[tx] == o.ID
+				}
+				if excluded {
+					lib.ExcludedKnown(knownJoinDel)
+					continue
+				}
+			}
 			if err := join.GetRight().Replace(&protodata.Game{GameID: o.ID, Status: o.Status}); err != nil {
 				fail("right Replace returned %v", err)
 			}
@@ -244,6 +262,10 @@ func runJoinCase(t lib.TB, test string, ops []jop) (st jstats) {
 					lib.ExcludedKnown(knownUpdDel)
 					continue
 				}
+			}
+			if _, ok := persisted[o.ID]; ok && rightChanged(gameOf[o.ID]) && lib.Known(knownJoinDel) {
+				lib.ExcludedKnown(knownJoinDel)
+				continue
 			}
 			_ = join.GetLeft().Del([]byte(o.ID))
 			if _, was := left[o.ID]; was {
@@ -281,4 +303,46 @@ func TestPropJoinModel(t *testing.T) {
 			lib.NonTrivialCase(map[string]interface{}{"join_ops": ops})
 		}
 	})
+}
+
+// TestKnown_JoinDelLeftUpdateRight: t3 and t4 point to game g2 (status 1), all saved. In one batch t3 is deleted and g2's status
+// becomes 2. The join lookup for status 2 must return exactly t4.
+func TestKnown_JoinDelLeftUpdateRight(t *testing.T) {
+	defer lib.Flush()
+	mem, _ := dbm.NewGoMemDB("c10j", "", 0)
+	kvdb := dbm.NewKVDB(mem)
+	join := newJoin(kvdb)
+	save := func() {
+		kvs, err := join.Save()
+		if err != nil {
+			t.Fatalf("Save: %v", err)
+		}
+		for _, kv := range kvs {
+			if kv.Value == nil {
+				_ = mem.Delete(kv.Key)
+			} else {
+				_ = mem.Set(kv.Key, kv.Value)
+			}
+		}
+	}
+	_ = join.GetRight().Replace(&protodata.Game{GameID: "g2", Status: 1})
+	_ = join.GetLeft().Replace(&protodata.GameAddr{Txhash: "t3", GameID: "g2", Addr: "a1"})
+	_ = join.GetLeft().Replace(&protodata.GameAddr{Txhash: "t4", GameID: "g2", Addr: "a1"})
+	save()
+	if err := join.GetLeft().Del([]byte("t3")); err != nil {
+		t.Fatalf("Del: %v", err)
+	}
+	_ = join.GetRight().Replace(&protodata.Game{GameID: "g2", Status: 2})
+	save()
+	rows, err := join.ListIndex("#status", table.JoinKey(nil, []byte("2")), nil, 0, dbm.ListASC)
+	var got []string
+	for _, r := range rows {
+		got = append(got, string(r.Primary))
+	}
+	if err != nil || fmt.Sprint(got) != "[t4]" {
+		hist := []jop{{Op: "game", ID: "g2", Status: 1}, {Op: "addr", ID: "t3", Addr: "a1"}, {Op: "addr", ID: "t4", Addr: "a1"}, {Op: "save"},
+			{Op: "deladdr", ID: "t3"}, {Op: "game", ID: "g2", Status: 2}, {Op: "save"}}
+		lib.KnownOrViolation(t, prop, "TestKnown_JoinDelLeftUpdateRight", knownJoinDel, map[string]interface{}{"join_ops": hist},
+			fmt.Sprintf("after deleting left row t3 and changing its game's status 1->2 in one batch, join ListIndex(#status,2) = %v err=%v, expected [t4]: a join index entry for the deleted row t3 was written", got, err))
+	}
 }
